@@ -895,6 +895,7 @@ func init() {
 		})
 		// Count and EntityAt do not use the cursor: what they do on a finished query is the same in every build
 		addMisuse("debugguardN", "QueryN.Count+EntityAt after exhaustion"+name, func(d *Drv, op *Op, h, _ ecs.Entity) {
+			defer covering(d, op)()
 			f, q := tq(d, op, cached)
 			defer fin(f, q)
 			for q.Next() {
@@ -905,6 +906,7 @@ func init() {
 			sink += int64(q.EntityAt(0).ID())
 		})
 		addMisuse("debugguardN", "QueryN.Count+EntityAt after early Close"+name, func(d *Drv, op *Op, h, _ ecs.Entity) {
+			defer covering(d, op)()
 			f, q := tq(d, op, cached)
 			defer fin(f, q)
 			q.Next()
@@ -1295,3 +1297,36 @@ func completes(fn func()) bool {
 //
 //go:noinline
 func completesBody(fn func()) { fn() }
+
+// covering makes sure the query of op.Tuple is not empty: if no alive entity has all components of the tuple (the high
+// arities), a temporary entity with them is created; the returned function removes it again. Not done while observers
+// are registered (they would see it).
+func covering(d *Drv, op *Op) func() {
+	cs := typed.Tuples[op.Tuple].Comps
+	set := SetOf(cs...)
+	m := d.M
+	for e := m.Epoch0; e < len(m.Ents); e++ {
+		if m.Ents[e].Alive && m.Ents[e].Mask.Contains(set) {
+			return func() {}
+		}
+	}
+	for i := range m.Obs {
+		if m.Obs[i].Registered {
+			return func() {}
+		}
+	}
+	var ids []ecs.ID
+	var rel []ecs.Relation
+	for _, c := range cs {
+		ids = append(ids, d.ID[c])
+		if u.Types[c].IsRel {
+			rel = append(rel, ecs.RelID(d.ID[c], ecs.Entity{}))
+		}
+	}
+	tmp := d.U.NewEntityRel(ids, rel...)
+	if tmp.ID() > d.foreignMaxID {
+		d.foreignMaxID = tmp.ID()
+	}
+	d.Stat.Misuse[fmt.Sprintf("temporary entity covering a tuple of arity %d", len(cs))]++
+	return func() { d.W.RemoveEntity(tmp) }
+}
